@@ -232,6 +232,17 @@ func main() {
 			x.flush()
 		})
 
+		// ---- 32-bit only: lengths above MaxInt/2 with real memory (thorough; strictly one at a time)
+		if slow32 && r.Thorough() {
+			r.Cases("big32", 1, 1, func(c *vkit.Case) {
+				x := newCx(c, true)
+				big32(x)
+				x.flush()
+			})
+			r.Floor("big32: Search moving right over more than MaxInt/2 one-byte items", r.Table("big32", "Search moving right over more than MaxInt/2 one-byte items"), 1)
+			r.Floor("big32: zero-size slices longer than 2^30 through the looping helpers", r.Table("big32", "zero-size slices longer than 2^30 through the looping helpers"), 2)
+		}
+
 		// ---- random large
 		nLarge := r.Scale(240, 4000)
 		maxN := r.Scale(1500, 20000)
